@@ -319,8 +319,9 @@ def vname(n):
     return n
 
 
-ORACLES = ['qsqrt', 'qcos', 'qsin', 'qtan', 'qacos', 'qasin', 'qatan', 'qatan2', 'qpi']
+ORACLES = ['fuel', 'qsqrt', 'qcos', 'qsin', 'qtan', 'qacos', 'qasin', 'qatan', 'qatan2', 'qpi']
 ORACLE_TY = {o: 'Q -> Q' for o in ORACLES}
+ORACLE_TY['fuel'] = 'nat'       # bound on the iterations of `while` loops (explicit, excluded by the theorems' statements)
 ORACLE_TY['qatan2'] = 'Q -> Q -> Q'
 ORACLE_TY['qpi'] = 'Q'
 
@@ -604,6 +605,13 @@ class FuncTranslator:
             return TLst(self.join(a.t, b.t))
         if isinstance(a, TTup) and isinstance(b, TTup) and len(a.ts) == len(b.ts):
             return TTup([self.join(x, y) for x, y in zip(a.ts, b.ts)])
+        # a homogeneous tuple used where a list is (Python sequences): the list type wins
+        if isinstance(a, TLst) and isinstance(b, TTup) or isinstance(a, TTup) and isinstance(b, TLst):
+            l_, t_ = (a, b) if isinstance(a, TLst) else (b, a)
+            e_ = l_.t
+            for x in t_.ts:
+                e_ = x if e_ is None else self.join(e_, x)
+            return TLst(e_)
         raise Untranslatable('%s: cannot unify types %r and %r' % (self.fn.name, a, b))
 
     def coerce(self, v, t):
@@ -628,6 +636,9 @@ class FuncTranslator:
             # element-wise coercion needs the components; only literal tuples reach here
             raise Untranslatable('tuple coercion')
         if isinstance(t, TLst) and isinstance(v.t, TLst) and v.t.t is None: return v.s
+        if isinstance(t, TLst) and isinstance(v.t, TTup):
+            l_ = self.tuple_to_list(v)
+            if t.t is None or same_coq(l_.t, t): return l_.s
         if same_coq(v.t, t): return v.s
         raise Untranslatable('%s: cannot coerce %r to %r' % (self.fn.name, v.t, t))
 
@@ -682,6 +693,8 @@ class FuncTranslator:
             return self.if_stmt(st, rest, env)
         if isinstance(st, ast.For):
             return self.for_stmt(st, rest, env)
+        if isinstance(st, ast.While):
+            return self.while_stmt(st, rest, env)
         if isinstance(st, ast.Try):
             return self.try_stmt(st, rest, env)
         if isinstance(st, ast.Raise):
@@ -1067,6 +1080,9 @@ class FuncTranslator:
         if isinstance(test, ast.Name) and test.id in env and isinstance(env[test.id], Val) \
                 and isinstance(env[test.id].t, TNone):
             return False
+        if isinstance(test, ast.Name) and test.id in env and isinstance(env[test.id], Val) \
+                and isinstance(env[test.id].t, TB) and env[test.id].s in ('true', 'false'):
+            return env[test.id].s == 'true'       # a flag left at its literal default (e.g. check_intersection=False)
         return None
 
     def is_cache_slot(self, attr):
@@ -1286,6 +1302,41 @@ class FuncTranslator:
                 accpat if len(acc) == 1 else "'(" + ', '.join(acc_c) + ')', pat, body_s, acctup, paren(it.s), init)
         return 'let %s := %s in\n  %s' % (accpat, fold, self.block(rest, env2))
 
+    def while_stmt(self, st, rest, env):
+        """while cond: <assignments>   ->   py_while fuel (fun st => cond) (fun st => body) st0
+        (recursion on the explicit parameter `fuel`; when it runs out the current state is returned)"""
+        if st.orelse or contains_return(st.body):
+            self.fail(st, 'while loop with return/break/continue/else')
+        acc = [n for n in assigned_names(st.body) if n in env and not isinstance(env[n], tuple)]
+        if not acc:
+            self.fail(st, 'while loop without state')
+        env_b = dict(env)
+        acc_c = []
+        for n in acc:
+            cn = vname(n.replace('self.', 'self_'))
+            acc_c.append(cn)
+            t = env[n].t
+            env_b[n] = Val(cn, Q if isinstance(t, TNum) else t)
+        c = self.cond(st.test, env_b)
+        body_s, body_env = self.branch_tuple(list(st.body), env_b, acc)
+        outs = [self.coerce(body_env[n], env_b[n].t) for n in acc]
+        tys = [env_b[n].t.coq() for n in acc]
+        if len(acc) == 1:
+            binder = '(%s : %s)' % (acc_c[0], tys[0]); unpack = ''; acctup = outs[0]; accpat = acc_c[0]
+            init = '(%s : %s)' % (self.coerce(env[acc[0]], env_b[acc[0]].t), tys[0])
+        else:
+            binder = '(st_ : %s)' % ('(' + ' * '.join(tys) + ')')
+            accpat = "'(" + ', '.join(acc_c) + ')'
+            unpack = 'let %s := st_ in ' % accpat
+            acctup = '(' + ', '.join(outs) + ')'
+            init = '(' + ', '.join('(%s : %s)' % (self.coerce(env[n], env_b[n].t), t) for n, t in zip(acc, tys)) + ')'
+        self.oracles.add('fuel')
+        loop = 'py_while fuel (fun %s => %s%s) (fun %s => %s%s%s) %s' % (binder, unpack, c, binder, unpack, body_s, acctup, init)
+        env2 = dict(env)
+        for n, cn in zip(acc, acc_c):
+            env2[n] = Val(cn, env_b[n].t)
+        return 'let %s := %s in\n  %s' % (accpat, loop, self.block(rest, env2))
+
     def pattern(self, target, ty, env):
         if isinstance(target, ast.Name):
             cn = vname(target.id)
@@ -1478,6 +1529,13 @@ class FuncTranslator:
                 and len(a.t.ts) == len(b.t.ts) and isinstance(l, ast.Tuple) and isinstance(r, ast.Tuple):
             ps = [self.compare1(x, ast.Eq(), y, env, node) for x, y in zip(l.elts, r.elts)]
             s = '(' + ' && '.join(paren(p) for p in ps) + ')'
+            return s if isinstance(op, ast.Eq) else 'negb ' + s
+        if isinstance(a.t, TTup) and isinstance(b.t, TTup) and isinstance(op, (ast.Eq, ast.NotEq)) and len(a.t.ts) == len(b.t.ts) \
+                and all(isinstance(t, (TQ, TZ, TNum)) for t in a.t.ts + b.t.ts):
+            n = len(a.t.ts)
+            xa = ['ta%d_' % i for i in range(n)]; xb = ['tb%d_' % i for i in range(n)]
+            ps = [self.numcmp(Val(x, ta), ast.Eq(), Val(y, tb), node) for x, y, ta, tb in zip(xa, xb, a.t.ts, b.t.ts)]
+            s = "(let '(%s) := %s in let '(%s) := %s in %s)" % (', '.join(xa), a.s, ', '.join(xb), b.s, ' && '.join(paren(p_) for p_ in ps))
             return s if isinstance(op, ast.Eq) else 'negb ' + s
         if isinstance(a.t, TB) and isinstance(b.t, TB) and isinstance(op, (ast.Eq, ast.NotEq)):
             s = 'Bool.eqb %s %s' % (paren(a.s), paren(b.s))
@@ -1796,7 +1854,15 @@ class FuncTranslator:
                 return Val('%s %s' % (tab[f.attr], ' '.join(paren(a) for a in args)), Q)
             if f.attr == 'fabs':
                 return Val('Qabs %s' % paren(args[0]), Q)
+            if f.attr == 'floor':
+                return Val('Qfloor %s' % paren(args[0]), Z)
             self.fail(e, 'math.%s' % f.attr)
+        if isinstance(f, ast.Attribute) and isinstance(f.value, ast.Name) and f.value.id == 'operator' and 'operator' not in env \
+                and f.attr in ('truediv', 'mul', 'add', 'sub') and len(e.args) == 2 and not e.keywords:
+            op = {'truediv': ast.Div(), 'mul': ast.Mult(), 'add': ast.Add(), 'sub': ast.Sub()}[f.attr]
+            node = ast.BinOp(left=e.args[0], op=op, right=e.args[1])
+            ast.copy_location(node, e)
+            return self.e_BinOp(node, env)
         if any(isinstance(a, ast.Starred) for a in e.args):
             e = self.expand_starred(e, env)
             f = e.func
@@ -1905,6 +1971,10 @@ class FuncTranslator:
             return Val('py_%s_list %s' % (name, paren(args[0].s)), Q)
         if name == 'float' and len(args) == 1:
             return Val(self.coerce(args[0], Q), Q)
+        if name == 'round' and len(args) == 1:
+            return Val('py_round %s' % paren(self.coerce(args[0], Q)), Z)
+        if name == 'round' and len(args) == 2 and args[1].s.strip('()') in ('0', '0%Z'):
+            return Val('inject_Z (py_round %s)' % paren(self.coerce(args[0], Q)), Q)
         if name == 'len' and len(args) == 1:
             if isinstance(args[0].t, TLst):
                 return Val('py_len %s' % paren(args[0].s), Z)
@@ -1924,6 +1994,9 @@ class FuncTranslator:
                 return Val('true' if sc else 'false', B)
         if name in ('reversed',) and len(args) == 1 and isinstance(args[0].t, TLst):
             return Val('rev %s' % paren(args[0].s), args[0].t)
+        if name in ('reversed',) and len(args) == 1 and isinstance(args[0].t, TTup):
+            l_ = self.tuple_to_list(args[0])
+            return Val('rev %s' % paren(l_.s), l_.t)
         if name == 'bool' and len(args) == 1:
             return Val(self.truthy(args[0], node), B)
         return None
